@@ -431,7 +431,10 @@ def check_C08(c):
     out = []
     for ev in c.by["capacity-exceeded"]:
         p = ev[5]
-        out.append(V("C08", "capacity-exceeded-" + p["what"], {"what": p["what"]},
+        # did a watcher thread of a scheduler drop (POSIX per-process semantics) the job lock that
+        # the same scheduler was holding to start a job, before the capacity was exceeded?
+        dropped = any(e[0] < ev[0] and e[5].get("by") == "watch" and "/jobs/" in e[5]["path"] for e in c.by["flock-dropped-under-holder"])
+        out.append(V("C08", "capacity-exceeded-" + p["what"], {"what": p["what"], "job_lock_dropped_by_own_watcher": dropped},
                      "token %s: %s=%d > total %d at seq %d (%s)" % (p["token"], p["what"], p["held"], p["total"], ev[0], p.get("holders"))))
     return out
 
